@@ -32,6 +32,13 @@ AREAS = ['tap']
 PINS = [
     'mesonbuild.mtest:TAPParser',
     'mesonbuild.mtest:TestRunTAP',
+    'mesonbuild.mtest:read_decode',
+    'mesonbuild.mtest:decode',
+    'mesonbuild.mtest:queue_iter',
+    'mesonbuild.mtest:TestSubprocess.stdout_lines',
+    'mesonbuild.mtest:TestSubprocess.communicate',
+    'mesonbuild.mtest:SingleTestRunner._run_cmd',
+    'mesonbuild.mtest:SingleTestRunner._run_subprocess',
     'mesonbuild.mtest:TestRun._complete',
     'mesonbuild.mtest:TestResult',
 ]
@@ -879,6 +886,11 @@ def run(ctx: Ctx) -> None:
                                   f'TAP test reported {r} (bad={r in BAD_NAMES}) but subtests/errors/exit status say bad={want}',
                                   {'lines': lines, 'returncode': rc})
     b.flush()
+
+    # 8. byte-level leg: program bytes -> read_decode / real pipe / meson test -> events and verdict
+    import sys as _sys2
+    from . import c18_bytes
+    c18_bytes.run(_sys2.modules[__name__], M, ctx)
     ctx.assumptions += TRUSTED
     ctx.assumptions.append('expected_fail / interactive runs are compared with the model only; the bad-iff sentence is '
                            'checked for ordinary runs (should_fail inverts it by design, interactive TAP runs are IGNORED)')
@@ -1022,6 +1034,11 @@ def replay(ctx: Ctx, rep: dict) -> None:
     case = rep.get('case', {})
     lines = case.get('lines')
     print('replay', rep.get('what'))
+    if case.get('leg') == 'bytes':
+        import sys as _sys2
+        from . import c18_bytes
+        c18_bytes.replay(_sys2.modules[__name__], M, ctx, case)
+        return
     if not isinstance(lines, list):
         print('no stream in replay file:', json.dumps(case)[:300])
         return
